@@ -1,9 +1,9 @@
 """R-DELEG: a generated method body is exactly one call of the right definition with the method's
 own parameters, in order, and its value is the method's value (awaited once for async)."""
 
-INTO_FUTURE = "std::future::IntoFuture::into_future"
-ASREF = "std::convert::AsRef::as_ref"
-BORROW = "std::borrow::Borrow::borrow"
+INTO_FUTURE = "core::future::into_future::IntoFuture::into_future"
+ASREF = "core::convert::AsRef::as_ref"
+BORROW = "core::borrow::Borrow::borrow"
 REBORROW_OK = {"Deref(Builtin)", "Borrow(Ref)", "Borrow(Mut)"}
 
 
